@@ -49,7 +49,7 @@ PROPS = {
         "title": "Decoding admits attributes after integrity/FINGERPRINT only per the RFC rule",
         "profiles": ["dev"],
         "rule": ("every sequence over {ordinary, MESSAGE-INTEGRITY, MESSAGE-INTEGRITY-SHA256, FINGERPRINT} up to the "
-                 "exhaustive length (quick 6, thorough 8 = 87,380 sequences) plus sampled longer ones; wire bytes built "
+                 "exhaustive length (quick 7 = 21,844 sequences, thorough 8 = 87,380 sequences) plus sampled longer ones; wire bytes built "
                  "by the reference (unique SOFTWARE serial per ordinary attribute, MAC/CRC per RFC at that position); "
                  "variants: all checksums right, every/each inadmissible one wrong, each admitted one wrong; decoded "
                  "under all 16 option combinations and the context-less decoder; oracle = the four-line admission rule "
@@ -59,7 +59,7 @@ PROPS = {
                         "decided by the statement, only no-panic is checked",
                         "the agent's private iterator implementing the same rule is exercised through the client "
                         "simulations (C07/C08/C10), not here"],
-        "min_counters": {"sequences.enumerated": 5461, "variants.admitted-wrong": 1000, "variants.inadmissible-wrong": 1000},
+        "min_counters": {"sequences.enumerated": 21845, "variants.admitted-wrong": 1000, "variants.inadmissible-wrong": 1000},
         "exhaustive_all": True,
     },
     "C14": {
